@@ -246,6 +246,12 @@ func NewCalculator(
 
 	// account for large standard deviations or peaks beyond the window
 	coveredRegion := gauss.CDF(float64(repeatWindow-frequency)) - gauss.CDF(0)
+	if !(coveredRegion > 0) {
+		// a window of a single tick, or a narrow curve whose peak lies outside the window: dividing
+		// by zero would make every rate NaN, which the trigger would silently treat as "no load"
+		return nil, fmt.Errorf("gaussian: no part of the curve (peak %s, standard deviation %s) falls on the ticks of a %s window at a frequency of %s",
+			peak, stddev, repeatWindow, frequency)
+	}
 	multiplier /= coveredRegion
 
 	return &Calculator{
